@@ -1,6 +1,6 @@
 (* C11 — wire messages round-trip exactly and match the compact-encoding spec.
    This file contains only pinned statements; proofs live in CodecFacts.v and CodecTie.v. *)
-From HC Require Import Base Codec CodecFacts CodecDesc SrcCodec CodecTie.
+From HC Require Import Base Codec CodecFacts CodecDesc SrcCodec CodecTieLib CodecTie.
 
 Theorem C11_node : codec_law node_ok size_node enc_node dec_node.
 Proof. exact law_node. Qed.
